@@ -9,9 +9,18 @@ B  tie: for every injected fault the Lean model's prediction (`cli.predict` on a
    abstraction of the faulty workbook: status, file, fault kind, log-vs-exception) against what
    the REAL command did.
 C  direct oracle: the statement itself on the real command (`python -m rpft.cli create_flows`
-   as a subprocess): status ≠ 0, the problem is named on stderr / in errors.log, `--output`
+   as a subprocess): status ≠ 0, a problem is named on stderr / in errors.log (SOME report: a
+   record of level ERROR/CRITICAL, a traceback or exception text — the exact wording per fault
+   class is part of the tie B, so a reworded message is a tie break, not a violation), `--output`
    absent resp. byte-identical to a pre-existing sentinel; fault-free controls: status 0 and
    the file is complete JSON equal (up to invented uuids) to what the library returns.
+
+Positions: besides rows / index rows / data rows of ordinary flows (also 2nd..nth flow, nested
+index, inserted templates), the base workbook `redef` puts every fault class into definitions that
+a LATER index row redefines and into definitions that REDEFINE an earlier one (flows from different
+sheets with one new_name, bulk flows, campaigns of one name, a trigger sheet listed twice): the tool
+parses every definition, so the fault must stop the command although the definition would not
+reach the output.
 """
 from __future__ import annotations
 
@@ -24,15 +33,27 @@ from .. import c15_wb as W
 from .. import core, par
 
 MANIFEST = dict(
-    text="Proof (partial): Lean model of the decision logic of `rpft create_flows` (file iff compilation returned; Except-propagation through index, flows, uuid dictionary, triggers; block-structure machine of _parse_block/_is_end_of_block; value limits; template-argument binding) with theorems for all inputs (any position, any nesting depth): cli_file_iff, cli_error_keeps_file, valid_prefix_irrelevant, unterminated_detected, mismatched_detected, balanced_accepted, checkBlocks_ok_iff (exactly the well-nested sheets pass), block_fault_never_masked, row_fault_detected, overlong_value/category, empty_text, bad_method, malformed_headers, arg_missing, arg_doubly_defined, uuid_conflict, trigger_unknown_flow, missing_sheet, unknown_operation, … ; tied to the code by T1 constants (640/115/36, HTTP methods, block_end_map, CRITICAL threshold, shape of cli.create_flows) and by fault enumeration against the REAL command: 11 valid base workbooks x 22 fault classes x every injection position (quick: sampled), each run as a subprocess with and without a pre-existing output file, predicted by the model (cli.predict).",
+    text="Proof (partial): Lean model of the decision logic of `rpft create_flows` (file iff compilation returned; Except-propagation through index, flows, uuid dictionary, triggers; block-structure machine of _parse_block/_is_end_of_block; value limits; template-argument binding) with theorems for all inputs (any position, any nesting depth): cli_file_iff, cli_error_keeps_file, valid_prefix_irrelevant, unterminated_detected, mismatched_detected, balanced_accepted, checkBlocks_ok_iff (exactly the well-nested sheets pass), block_fault_never_masked, row_fault_detected, overlong_value/category, empty_text, bad_method, malformed_headers, arg_missing, arg_doubly_defined, uuid_conflict, trigger_unknown_flow, missing_sheet, unknown_operation, … ; tied to the code by T1 constants (640/115/36, HTTP methods, block_end_map, CRITICAL threshold, shape of cli.create_flows) and by fault enumeration against the REAL command: 12 valid base workbooks x 22 fault classes x every injection position (quick: sampled), each run as a subprocess with and without a pre-existing output file, predicted by the model (cli.predict). Positions include flow / campaign / trigger definitions that a later index row redefines and definitions that redefine an earlier one (base 'redef'; theorems compileFlows_ok_iff, redefined_later_detected, redefining_earlier_detected: every definition is compiled whether or not it survives in the output) — every flow-level fault class is put into both kinds of position in every tier (strata class×position.*).",
     ref="§5 C15",
-    note="PARTIAL: process termination mechanics (sys.exit inside a logging handler, uncaught exception, a crash during json.dump) live in the Python runtime and are observed, not proved (C15_full stays a visible def; C15_partial is proved). Trusts: Lean kernel (axioms audited each run), the harness's independent reading of a workbook into the abstract model input, Driver JSON codec, CPython process semantics.",
+    note="PARTIAL: process termination mechanics (sys.exit inside a logging handler, uncaught exception, a crash during json.dump) live in the Python runtime and are observed, not proved (C15_full stays a visible def; C15_partial is proved). Trusts: Lean kernel (axioms audited each run), the harness's independent reading of a workbook into the abstract model input, Driver JSON codec, CPython process semantics. Oracle: 'names the problem' is violated only by output that is silent about a problem (no ERROR/CRITICAL record, no traceback/exception text); a report in other words than the model expects for the class is a model/code disagreement (tie break -> search), not a violation.",
     technique="Lean 4 proof (induction over row lists / nesting; Except propagation) + exhaustive fault-class x position enumeration against the real CLI predicted by the model",
 )
 
 
 def named(pattern: str, res) -> bool:
+    """the output matches the message pattern the MODEL expects for this fault class (tie, not oracle)"""
     return re.search(pattern, res["stderr"] + "\n" + res["log"], re.S) is not None
+
+
+# "names the problem on stderr or in its log": SOME problem report — a log record of level ERROR or CRITICAL,
+# a traceback, or the final `SomeError: …` / `SomeException…` line of an uncaught exception.  The exact wording
+# belongs to the tie (B), not to the property: a reworded message is a model/code disagreement, not a violation.
+PROBLEM_REPORT = (r"\b(CRITICAL|ERROR)\b|Traceback \(most recent call last\)"
+                  r"|^[ \t]*[A-Za-z_][\w.]*(Error|Exception)\b[^\n]*$")
+
+
+def problem_reported(res) -> bool:
+    return re.search(PROBLEM_REPORT, res["stderr"] + "\n" + res["log"], re.M) is not None
 
 
 def observed_kinds(res):
@@ -47,14 +68,17 @@ def slim(res):
 
 
 def oracle_fault(case, res, sentinel: bool):
-    """C: the property's own observable for a faulty workbook; returns list of failure texts"""
+    """C: the property's own observable for a faulty workbook; returns list of failure texts.
+    "Names the problem" fails only when the output is SILENT about a problem (no ERROR/CRITICAL record, no
+    traceback / exception text on stderr or in errors.log); a report in other words than the class's expected
+    message is a tie break (`wording_differs`), not a violation."""
     fails = []
     if res.get("timeout"):
         return ["command did not terminate within 300 s"]
     if res["rc"] == 0:
         fails.append("exit status 0 although the workbook has a detected fault")
-    if not named(case["pattern"], res):
-        fails.append("problem not named on stderr or in errors.log")
+    if not problem_reported(res):
+        fails.append("no problem is named on stderr or in errors.log (no ERROR/CRITICAL record, no traceback or exception text)")
     if sentinel:
         if res["out"] != W.SENTINEL:
             fails.append("pre-existing output file was overwritten or removed")
@@ -63,6 +87,11 @@ def oracle_fault(case, res, sentinel: bool):
     if res.get("others"):
         fails.append("unexpected files written: %s" % res["others"])
     return fails
+
+
+def wording_differs(case, res) -> bool:
+    """B: a problem IS reported, but not in the words expected for the injected fault class"""
+    return not res.get("timeout") and problem_reported(res) and not named(case["pattern"], res)
 
 
 def eval_cases(cases):
@@ -85,6 +114,9 @@ def eval_cases(cases):
             if fails:
                 rec["viol"].append({"what": "; ".join(fails), "sentinel": sentinel, "observed": slim(res)})
             # B: tie
+            if wording_differs(c, res):
+                rec["ties"].append({"what": "a problem is reported, but not with the message expected for this fault class",
+                                    "expected_pattern": c["pattern"], "real": slim(res)})
             if "__error__" in pred:
                 rec["ties"].append({"what": "driver error", "detail": pred})
                 continue
@@ -157,6 +189,13 @@ def control_worker(items):
 
 KNOWN_A = "F-C15-a"
 
+# fault classes that can sit inside a flow definition (its sheet, its create_flow row): each must be exercised in
+# both redefinition positions in every tier (self-check in run())
+REDEF_CLASSES = ["unterminated block", "mismatched block", "edge from unknown row", "loop without variable",
+                 "go_to wrong number of targets", "go_to unknown target", "missing sheet", "missing data row",
+                 "data_row_id without data_sheet", "missing template argument", "empty message text", "over-long value",
+                 "over-long category name", "malformed webhook headers", "invalid webhook method", "conflicting uuids"]
+
 
 def known_cases():
     """deterministic known-finding stream: problems the tool detects and logs at ERROR level"""
@@ -181,6 +220,40 @@ def known_cases():
     return out
 
 
+KNOWN_B = "F-C15-b"
+
+
+def known_replaced_campaign_cases():
+    """deterministic known-finding stream F-C15-b: a campaign definition that a later create_campaign row of the
+    same name replaces is read (sheet, row validators) but never `parse()`d, so what only `CampaignParser.parse`
+    detects — a message event without text, a non-integer offset / delivery hour — goes unnoticed there.  Each
+    case comes with its twin: the same fault in the campaign that survives (must be, and is, detected)."""
+    import random
+
+    wb = W.base_redef(random.Random(0))
+    out = []
+    for what, change in (
+        ("message event without text", {"event_type": "M", "message": "", "flow": ""}),
+        ("offset that is not an integer", {"offset": "soon"}),
+        ("delivery hour that is not an integer", {"delivery_hour": "noon"}),
+    ):
+        w, twin = W.wb_copy(wb), W.wb_copy(wb)
+        w["sheets"]["campA"]["rows"][0].update(change)       # campA: replaced by the later row for campB (same new_name)
+        twin["sheets"]["campB"]["rows"][-1].update(change)   # campB: the definition that survives
+        out.append({"what": what, "wb": w, "twin": twin})
+    return out
+
+
+def known_replaced_campaign_worker(items):
+    out = []
+    for it in items:
+        res, tw = W.run_cli(it["wb"], False), W.run_cli(it["twin"], False)
+        out.append({"what": it["what"], "rc": res["rc"], "file": res["out"] is not None, "reported": problem_reported(res),
+                    "twin_detected": tw["rc"] not in (0, None) and tw["out"] is None and problem_reported(tw),
+                    "observed": slim(res), "twin_observed": slim(tw)})
+    return out
+
+
 def known_worker(items):
     out = []
     for it in items:
@@ -199,26 +272,34 @@ def build_cases(bases, tier, rng):
     for wb in bases:
         _w, a = A.abstract(wb)
         for cls, (gen, kinds, listed) in F.CLASSES.items():
-            sites = list(gen(wb, a))
+            sites = [(site, wbf, pattern, a.position_of(site)) for site, wbf, pattern in gen(wb, a)]
             strata[f"sites.{cls}"] = strata.get(f"sites.{cls}", 0) + len(sites)
+            for s in sites:
+                if s[3]:
+                    strata[f"sites.position.{s[3]}"] = strata.get(f"sites.position.{s[3]}", 0) + 1
             if tier == "quick" and len(sites) > 3:
                 keep = {0, len(sites) - 1} if len(sites) > 40 else {rng.randrange(len(sites))}
                 keep.add(rng.randrange(len(sites)))
                 keep.add(rng.randrange(len(sites)))
+                # position classes are part of the enumeration in every tier: one site of this fault class in each
+                # kind of redefined definition (flow / campaign / trigger sheet × replaced later / replacing / both)
+                for pos in sorted({s[3] for s in sites if s[3]}):
+                    keep.add(rng.choice([i for i, s in enumerate(sites) if s[3] == pos]))
                 sites = [s for i, s in enumerate(sites) if i in keep]
-            for site, wbf, pattern in sites:
+            for site, wbf, pattern, pos in sites:
                 n += 1
                 # thorough: every site; every 4th in both output-file modes, the others alternating
                 modes = [False, True] if (tier != "quick" and n % 4 == 0) else [n % 2 == 0]
                 cases.append({"id": n, "cls": cls, "base": wb["name"], "site": site, "wb": wbf, "pattern": pattern,
-                              "kinds": sorted(kinds), "listed": listed, "modes": modes})
+                              "kinds": sorted(kinds), "listed": listed, "modes": modes, "position": pos})
     return cases, strata
 
 
 def run(ck: core.Check):
     ck.lean = core.lean_step("C15", thorough=(ck.tier == "thorough"))
     ck.rule = ("a case = (valid base workbook, fault class, injection site, output-file mode); sites enumerate every row / "
-               "index row / data reference where the fault can be put (thorough: all; quick: a seeded sample per class and base); "
+               "index row / data reference where the fault can be put (thorough: all; quick: a seeded sample per class and base, plus "
+               "one site per class in each kind of redefined definition — replaced by a later index row / replacing an earlier one / both); "
                "every case is non-trivial (a real subprocess run of the command on a faulty workbook); distinct = distinct (base, class, site, mode)")
     ck.assumptions = [
         "the harness's reading of a CSV workbook into the abstract model input (c15_abs.py) is independent of the repo's parsers and trusted",
@@ -270,6 +351,25 @@ def run(ck: core.Check):
                          {"kind": "fault", "class": "error-level detection", "pattern": it["pattern"], "workbook": it["wb"],
                           "sentinel": False, "observed": r["observed"]})
 
+    # known-finding stream F-C15-b (deterministic): a fault that only CampaignParser.parse() detects, inside a campaign
+    # definition that a later row replaces.  Attribution: trigger (replaced definition) + pattern (status 0, file
+    # written, silent) + counterfactual (the same fault in the surviving definition IS detected).
+    kb = known_replaced_campaign_cases()
+    for it, r in zip(kb, [x for sh in par.pmap(known_replaced_campaign_worker, [[c] for c in kb]) for x in sh]):
+        ck.case(("known-b", it["what"]))
+        ck.count("known-finding stream (replaced campaign)")
+        if not r["twin_detected"]:
+            continue    # the tool does not detect this fault anywhere: not a "detected fault" of C15 (C19's business)
+        if r["rc"] == 0 and r["file"] and not r["reported"]:
+            ck.known(KNOWN_B, "a fault that the tool detects when it parses a campaign (message event without text, offset / delivery "
+                     "hour that is not an integer) goes unnoticed in a campaign definition that a later create_campaign row of "
+                     "the same name replaces (the replaced CampaignParser is never parse()d): status 0 and the output file is written",
+                     {"what": it["what"], "observed": r["observed"], "same fault in the surviving definition": r["twin_observed"]})
+        elif r["rc"] == 0 or r["file"]:
+            ck.violation("fault in a replaced campaign definition (detected in the surviving one): status, report and output file disagree with each other",
+                         {"kind": "fault", "class": "campaign fault in a replaced definition: " + it["what"], "pattern": "",
+                          "workbook": it["wb"], "sentinel": False, "observed": r["observed"]})
+
     cases, strata = build_cases(bases, ck.tier, ck.rng)
     for k, v in strata.items():
         ck.count(k, v)
@@ -278,6 +378,16 @@ def run(ck: core.Check):
     missing = [c for c, (_g, _k, listed) in F.CLASSES.items() if not ck.strata.get(f"cases.{c}")]
     if missing:
         raise core.Infra(f"generator self-check: no case for fault classes {missing}")
+    # … and every fault class that lives in a flow sheet / a create_flow row must have been put into a definition
+    # that a later row redefines AND into one that redefines an earlier one
+    AB = A.Abstraction
+    need = [(c, "flow definition " + p) for c in REDEF_CLASSES for p in (AB.LATER, AB.EARLIER)]
+    # campaign parsers are created (sheet read, rows validated) when their index row is read, trigger parsers too
+    need += [("missing sheet", k + " " + p) for k in ("campaign definition", "trigger sheet") for p in (AB.LATER, AB.EARLIER)]
+    need.append(("trigger for unknown flow", "trigger sheet " + AB.BOTH))
+    missing = [(c, p) for c, p in need if not ck.strata.get("class×position.%s | %s" % (c, p))]
+    if missing:
+        raise core.Infra(f"generator self-check: no case for (fault class, redefinition position) {missing}")
 
     if (ck.tie_breaks or not ck.lean.ok) and not ck.violations and quick:
         ck.search_ran = True
@@ -301,6 +411,9 @@ def fold(ck, cases, recs, search=False):
         ck.count(("search." if search else "cases.") + c["cls"])
         ck.count("subprocess runs", r["runs"])
         ck.count("base." + c["base"])
+        if c.get("position"):
+            ck.count(("search." if search else "cases.") + "position." + c["position"])
+            ck.count("class×position.%s | %s" % (c["cls"], c["position"]))
         if r["pred"].get("fault"):
             ck.count("model fault." + r["pred"]["fault"]["k"])
         if r.get("skipped"):
@@ -334,6 +447,8 @@ def replay(path):
         else:
             fails = oracle_fault({"pattern": rp.get("pattern", "")}, res, sentinel)
             print("oracle:", fails or "holds")
+            if rp.get("pattern") and wording_differs({"pattern": rp["pattern"]}, res):
+                print("tie: a problem is reported, but not with the expected message /%s/" % rp["pattern"])
             ok = not fails
         bad += not ok
     w, a = A.abstract(wb)
